@@ -1,16 +1,16 @@
 SPECIFICATION Spec
 CONSTANTS MaxItems = 2
  MaxSub = 2
- MaxBlocks = 3
- MaxDepth = 2
- MaxLeaves = 3
- Lean = TRUE
- Budget = 1
- IdOffs <- IdOffs1
- Rules = {"assume", "substitution", "subproof"}
+ MaxBlocks = 1
+ MaxDepth = 1
+ MaxLeaves = 2
+ Lean = FALSE
+ Budget = 2
+ IdOffs <- IdOffs2
+ Rules = {"substitution", "subproof"}
  ArgKinds = {}
  ArityOffs <- ArityOffs1
- MaxAlias = 0
+ MaxAlias = 1
  Emit = TRUE
 INVARIANT RefSound
 INVARIANT RefGapFree
